@@ -121,7 +121,7 @@ PROPS = {
             'compound header writers: the call-site fact count <= byte length (every element occupies at least one byte in this implementation) is assumed; the serde SerializeSeq/Map impls that call them are not under contract',
             'messages: Message::serialize is proved to hand the serializer exactly the sections that are set, in the AMQP order, and the Message visitor (visit_seq, FieldVisitor::visit_u64) to rebuild the same sections from them (lemma_message_round_trip, all 64 presence combinations, body descriptors 0x75-0x77); the encoding of each section value (derive output), the body types (incl. batches of Data/AmqpSequence) and symbolic descriptors (visit_str) are not under contract']),
     'C05': dict(
-        probes=[COMPOSITE_VARIANTS,
+        probes=[COMPOSITE_VARIANTS, RT_VALUE_CLASSES,
                 dict(name='spec_defaults_of_elided_fields', kind='agreement', target='serde_amqp::from_slice~fe2o3_amqp_types-composites', args=['C05.spec-defaults'],
                      claim='a composite whose defaulted fields are elided (list0, short list) or sent as null decodes to the defaults of the SPECIFICATION, written out in the probe (header: durable false, priority 4, first-acquirer false, delivery-count 0; open: max-frame-size 4294967295, channel-max 65535; begin: handle-max 4294967295; attach: snd-settle-mode mixed, rcv-settle-mode first, incomplete-unsettled false; flow: drain / echo false; transfer: more / aborted / batchable / resume false; disposition: settled / batchable false; detach: closed false; source / target: durable none, expiry-policy session-end, timeout 0, dynamic false)',
                      bound='12 reference encodings written by hand from the specification, 36 field checks (derive-macro output is outside the Verus subset)')],
@@ -177,7 +177,8 @@ PROPS = {
             'bounded (Kani): PLAIN initial responses of <= 7 bytes with a fixed 2-byte user and password',
             'PLAIN does not check that init.mechanism == PLAIN and ignores fields after the third NUL (observed, not part of the property)']),
     'C06': dict(
-        units=['FRAMEENC', 'FRAMEDEC', 'CONNENG', 'TRANSPORT', 'HDRCODEC', 'SASLNEG', 'HEADERS'], kani=[], level='proof', title='Frames on the wire',
+        probes=[COMPOSITE_VARIANTS],
+        units=['FRAMEENC', 'FRAMEDEC', 'CONNENG', 'TRANSPORT', 'HDRCODEC', 'SASLNEG', 'HEADERS', 'READERS'], kani=[], level='proof', title='Frames on the wire',
         lemmas={'HDRCODEC': ['lemma_header_round_trip'], 'FRAMEENC': ['lemma_expected_properties', 'lemma_cut_points', 'lemma_mids_payload', 'lemma_mids_sizes', 'lemma_flatten_append', 'lemma_payloads_append']},
         assumptions=[
             'precondition fits(): the transfer performative alone (in each of its three forms) is smaller than the frame body; a larger one is outside the contract (usize underflow / no progress)',
@@ -258,7 +259,7 @@ PROPS = {
             'NOT DECIDED (the headline of C14): that no call hangs and that every operation completes within bounded time; that all engine tasks terminate; behaviour at transport cut points (every byte offset x every pending operation x schedules of the four tokio tasks); that a oneshot / mpsc receiver really observes the closure (tokio); DeliveryFut::poll and the public handle wrappers (not under contract); that the stop-reason cells are the SAME cells the handles read (Arc sharing is erased, R8)',
             ASYNC, ENGINE]),
     'C16': dict(
-        units=['REASM', 'SENDSPLIT', 'LINK'], kani=[], level='proof', title='Cancel safety (custody obligations at the cancellation points of recv and send)',
+        units=['REASM', 'SENDSPLIT', 'LINK', 'LINKFLOW'], kani=[], level='proof', title='Cancel safety (custody obligations at the cancellation points of recv and send)',
         assumptions=[
             'DECIDED (necessary conditions, stated at the await points of the functions under contract): (recv) payload octets taken from the link channel for a delivery not yet returned are held by the receiver itself -- its reassembly buffer -- whenever the recv future can be dropped: partial deliveries are parked in ReceiverInner::incomplete_transfer (on_incomplete_transfer), and no cancellation point may be reached while a completed delivery is owned by locals only; (send) no cancellation point between consuming a link credit and queueing the first frame, nor between two frames of one delivery',
             'a cancellation point is an `.await` on a bounded-channel send (tokio mpsc; it also returns Pending when the task\'s cooperative budget is used up): the awaited calls are stand-ins carrying the obligation as a precondition, placed where the source awaits (send_transfer(..).await, self.dispose(..).await, the call of send_payload_with_transfer); that each single tokio operation (mpsc send / recv, Notify) is itself cancel safe is taken from the tokio documentation',
